@@ -173,6 +173,13 @@ class ArityChecker(MultiFunction):
             # argument numbers (ignoring parts)
             numbers = set(tuple(sorted(set(arg[0].number() for arg in op))) for op in ops)
             if () in numbers:  # Allow e.g. <v[0], 0, v[1]> but not <v[0], u[0]>
+                # ... and not <v[0], f>, which is affine in v
+                for op, component in zip(ops, o.ufl_operands):
+                    if not op and not isinstance(component, Zero):
+                        raise ArityMismatch(
+                            "Listtensor components must all depend on the form arguments or "
+                            f"be zero, found the argument-free component {component}."
+                        )
                 numbers.remove(())
             if len(numbers) > 1:
                 raise ArityMismatch(
